@@ -526,6 +526,14 @@ def _serial_pairs(case: dict) -> dict:
                         obs["co_enabled_pair_schedules_with_switch"] += 1
                         keys.add(f"serial:{spec['name']}:{ta}x{tb}:{info['trace_hash']}")
                     got = _outcome(run)
+                    if case.get("quiescence"):
+                        # the same pair schedules seen through C05's predicates (used by C05's own `pairs` kind)
+                        qv = oracles.attribute(oracles.quiescence_check(run, "C05", spec), run, "C05")
+                        obs["quiescent_runs"] += 1 if run.quiescent else 0
+                        for x in qv:
+                            x.update(pair=f"{ta} x {tb}", step=k, schedule=sc, spec=spec["name"])
+                        violations += qv
+                        continue
                     if got not in serial.values():
                         a_, b_ = serial["A;B"], serial["B;A"]
                         violations.append(viol(f"C07/pair-not-serializable:{ta}x{tb}", f"{spec['name']}, step {k}: {ta}(row {ra}) x {tb}(row {rb}) under schedule {sc} ends {got[0]} {[(s_[0], s_[1]) for s_ in got[1]]} executions {dict(got[2])}; the two serial orders end {a_[0]} {[(s_[0], s_[1]) for s_ in a_[1]]} {dict(a_[2])}" + ("" if a_ == b_ else f" / {b_[0]} {[(s_[0], s_[1]) for s_ in b_[1]]} {dict(b_[2])}")))
